@@ -66,39 +66,20 @@ def out_entries(P, f, v, t):
     """the returned map of compute_last_random_value as (pairs, singles): pairs = dict(left, right, key, val) for entries made
     from the i-th elements of two collections zipped together (key/val over ITEM = the pair), singles = [(key, val)] — whether
     written `zip(..).collect()` + insert or as a loop of inserts over the zip"""
-    from ..seq import _is_empty_ctor
-    if t[0] != "mut":
-        return None
     pairs, singles = None, []
-    base = t[1]
-    pair = lambda l, r: (lambda x: l if x == ("field", ITEM, None, "0") else r if x == ("field", ITEM, None, "1") else None)
-    if _is_empty_ctor(base):
-        for c in map_components(P, f, v, t):
-            if c[0] == "each" and is_call(c[1], name="zip") and pairs is None:
-                (lb, le), (rb, re_) = side_view(P, c[1][2][0]), side_view(P, c[1][2][1])
-                if le is None or re_ is None:
-                    return None
-                m = [(lambda x: x == ("field", ITEM, None, "0"), subst(le, [(lambda y: y == ITEM, ("field", ITEM, None, "0"))])),
-                     (lambda x: x == ("field", ITEM, None, "1"), subst(re_, [(lambda y: y == ITEM, ("field", ITEM, None, "1"))]))]
-                pairs = {"left": lb, "right": rb, "key": subst(c[2], m), "val": subst(c[3], m)}
-            elif c[0] == "one":
-                singles.append((c[1], c[2]))
-            else:
+    for c in map_components(P, f, v, t):
+        if c[0] == "each" and is_call(c[1], name="zip") and pairs is None:
+            (lb, le), (rb, re_) = side_view(P, c[1][2][0]), side_view(P, c[1][2][1])
+            if le is None or re_ is None:
                 return None
-        return pairs, singles
-    if is_call(base, name="collect") and base[2] and is_call(base[2][0], name="zip"):
-        (lb, le), (rb, re_) = side_view(P, base[2][0][2][0]), side_view(P, base[2][0][2][1])
-        if le is None or re_ is None:
+            m = [(lambda x: x == ("field", ITEM, None, "0"), subst(le, [(lambda y: y == ITEM, ("field", ITEM, None, "0"))])),
+                 (lambda x: x == ("field", ITEM, None, "1"), subst(re_, [(lambda y: y == ITEM, ("field", ITEM, None, "1"))]))]
+            pairs = {"left": lb, "right": rb, "key": subst(c[2], m), "val": subst(c[3], m)}
+        elif c[0] == "one":
+            singles.append((c[1], c[2]))
+        else:
             return None
-        pairs = {"left": lb, "right": rb, "key": subst(le, [(lambda y: y == ITEM, ("field", ITEM, None, "0"))]),
-                 "val": subst(re_, [(lambda y: y == ITEM, ("field", ITEM, None, "1"))])}
-        for o in t[2]:
-            if o[1] != "insert" or len(o[2]) != 2 or site_bb(o[3], f) is None or any(o[3][-1] in lp["body"] for lp in f.loops()) or \
-                    not on_every_success_path(f, o[3][-1]):
-                return None
-            singles.append((o[2][0], o[2][1]))
-        return pairs, singles
-    return None
+    return pairs, singles
 
 
 def run(ctx):
@@ -170,7 +151,7 @@ def run(ctx):
                   "the helper's outgoing values must be the drawn values for the first |H|-1 helpers and zeta_i*s_i minus "
                   "their sum for the last helper, zeta_i = Lagrange(helpers, at repaired identifier, own identifier)",
                   f.loc)
-        reductions(ctx, H.key, adaptors={"zip": 1}, min_loops=0, fn=H, view=hv)
+        reductions(ctx, H.key, adaptors={"zip": 1}, min_loops=0, fn=H, view=hv, may_be_absent=("zip",))
     f = ctx.anchor(RP + "repair_share_part2")
     if f:
         reductions(ctx, f.key, adaptors={}, min_loops=0)
@@ -194,5 +175,5 @@ def run(ctx):
                       "identifier,group-key,threshold", "repaired key package must carry the given identifier and the "
                       "public key package's group key and threshold", f.loc)
             refusal(ctx, f, "SEP", "threshold-must-be-known",
-                    [("min_signers.ok_or", succ_fact(lambda t: t[0] == "ok_or" and fld(arg(3), "min_signers")(t[1])))],
+                    [("min_signers.ok_or", succ_fact(fld(arg(3), "min_signers")))],
                     ok_sinks(f), require_fail_err=False)
